@@ -209,9 +209,11 @@ impl Typed for C14 {
             }
             if stale_pongs > 0 {
                 ctx.count("probe.stale_or_forged_pong_fed");
+                ctx.count("fault.stale_or_forged_pong");
             }
             if fired > 0 {
                 ctx.count("probe.timeout_fired");
+                ctx.count("fault.pong_withheld_past_timeout");
             }
             if let Some(r) = last_rtt {
                 if 3 * r < MIN_MS {
